@@ -19,6 +19,8 @@ def norm_container(c):
 
 def run(rep, tier):
     rep.rule('R03.1', 'sibling agreement: for every skeleton fact computed for one engine the other engine has the same fact -- phase-protocol verdict and event alphabet, iteration directions per site, exact _flags relation (set of (flags, return, events, flags\') tuples), monitor-protocol verdict, containment status of every callback call, run-state members covered by reset(), serialization key set')
+    rep.rule('R03.3', 'isInFinal treats pseudo-states as neutral: a history child of a parallel does not keep the parallel from being final')
+    rep.rule('R03.4', 'the fast engine\'s precomputed conflict matrix uses all terms of the conflict definition (same source, source ancestry both ways, exit-set overlap both ways)')
     rep.rule('R03.2', 'registration: the factory registers one instance of each engine class, their names are distinct ("large", "fast"), the default engine of InterpreterImpl::init is a registered class')
     rep.assume('equality of traces per input is not decided; agreement is established on structure')
     fb = facts.FactBase(facts.library_tus())
@@ -115,6 +117,73 @@ def run(rep, tier):
         keys_[e] = (keyset(ser), keyset(de))
     both('members re-initialised by reset()', cov[L], cov[F])
     both('serialization keys (written, read)', tuple(k for k in keys_[L]), tuple(k for k in keys_[F]), detail=lambda x: str(x)[:200])
+
+    # ---- R03.3 isInFinal: pseudo-states are neutral in the conjunction over a parallel's children
+    iif = fb.fn('uscxml::LargeMicroStep::isInFinal')
+    sw = [n for n in iif.walk() if n['k'] == 'SwitchStmt']
+    if not sw:
+        raise AnalysisBroken('LargeMicroStep::isInFinal: switch over the state kind not found')
+    arms = tab.switch_arms(sw[0])
+    tail_returns = [tab.const_of(n['c'][0]) for n in (iif.d['body'].get('c') or []) if n['k'] == 'ReturnStmt' and n.get('c')]
+
+    def arm_returns(a):
+        vals = []
+        for st in a['eff']:
+            for x in sub(st):
+                if x['k'] == 'ReturnStmt' and x.get('c'):
+                    vals.append(tab.const_of(x['c'][0]))
+        if not tab.ends_control(a['eff']) or (a['eff'] and a['eff'][-1]['k'] == 'BreakStmt' and not vals):
+            vals += tail_returns      # falls out of the switch to the function's trailing return
+        return vals
+    def kinds(a):
+        out = set()
+        x = a['node']
+        while x is not None and x['k'] in ('CaseStmt', 'DefaultStmt'):
+            if x['k'] == 'CaseStmt':
+                out |= {m[0] for s_ in sub(x['c'][0]) for m in (s_.get('mac') or []) if m[0].startswith('USCXML_STATE_')}
+            x = x['c'][-1] if x.get('c') else None
+        return out
+    explicit = {}
+    dflt = None
+    for a in arms:
+        for k_ in kinds(a):
+            explicit[k_] = a
+        if a['default']:
+            dflt = a
+    for k_ in ('USCXML_STATE_HISTORY_DEEP', 'USCXML_STATE_HISTORY_SHALLOW'):
+        a = explicit.get(k_, dflt)
+        vals = arm_returns(a) if a is not None else tail_returns
+        rep.check(bool(vals) and all(v == 1 for v in vals), 'R03.3', 'isInFinal|' + k_[13:], locstr(a['node']) if a is not None else iif.where(),
+                  'a history pseudo-state among a parallel\'s children counts as %s in LargeMicroStep::isInFinal (it must be neutral, i.e. true: the fast engine never sees pseudo-states in the configuration)' % vals)
+    want = {'USCXML_STATE_FINAL': [1], 'USCXML_STATE_ATOMIC': [0]}
+    for k_, w in want.items():
+        a = explicit.get(k_)
+        if a is None:
+            raise AnalysisBroken('isInFinal: no arm for %s' % k_)
+        rep.check(arm_returns(a) == w, 'R03.3', 'isInFinal|' + k_[13:], locstr(a['node']), 'kind %s returns %s' % (k_[13:], arm_returns(a)))
+
+    # ---- R03.4 conflict definition: the fast engine's matrix uses the terms of Predicates.cpp::conflicts
+    fi_ = fb.fn('uscxml::FastMicroStep::init')
+    conf_gotos = [n for n in fi_.walk() if n['k'] == 'GotoStmt' and n.get('label') == 'CONFLICTING_TRANS']
+    terms = set()
+    for gt in conf_gotos:
+        cond = None
+        for a in fi_.ancestors(gt):
+            if a['k'] == 'IfStmt':
+                cond = a['c'][0]
+                break
+        if cond is None:
+            continue
+        names = [x['ref']['name'] for x in sub(cond) if x['k'] == 'MemberExpr']
+        c0 = strip(cond)
+        if c0['k'] == 'BinaryOperator' and c0.get('op') == '==' and 'source' in names:
+            terms.add('same-source')
+        elif 'ancestors' in names or any(x['k'] == 'DeclRefExpr' and x['ref'].get('name', '').startswith('anc') for x in sub(cond)) or 'anc1' in fb.text(cond):
+            terms.add('source-ancestry#%d' % (1 + sum(1 for t in terms if t.startswith('source-ancestry'))))
+        elif 'first' in names and 'second' in names:
+            terms.add('exit-overlap#%d' % (1 + sum(1 for t in terms if t.startswith('exit-overlap'))))
+    want_terms = {'same-source', 'source-ancestry#1', 'source-ancestry#2', 'exit-overlap#1', 'exit-overlap#2'}
+    rep.check(terms == want_terms, 'R03.4', 'FastMicroStep::init|conflict terms', fi_.where(), 'the conflict matrix marks a pair as conflicting for %s; Predicates.cpp::conflicts: same source, source ancestry both ways, exit sets intersect; missing: %s' % (sorted(terms), sorted(want_terms - terms)))
 
     # ---- R03.2
     reg = []
